@@ -194,7 +194,7 @@ PROPS = {
 _V2NOTE = "Trusts: the harness' own generators/oracles, the package tokenizer for white-box token sequences (premise checks and spans), Go's runtime. Corpus files are read from /repo/v2/assets at run time; the build compiles /repo's working tree."
 MANIFEST_TEXT = {
     "C01": {
-        "level": "Generated-input search with an exact constructive oracle: hundreds (quick) to thousands (thorough) of plantings of 1-4 corpus documents in verified out-of-vocabulary context across thresholds 0.7-1.0, full/small corpora and user-added documents, plus an enumeration of every embedded document (x every menu threshold in thorough). Every embedded document is also planted twice, and user-added documents get token-identical twins in other categories (a copy is then a copy of both). Each planted copy must be reported with Confidence exactly 1.0, exact token span and lines. Bounded exploration.",
+        "level": "Generated-input search with an exact constructive oracle: hundreds (quick) to thousands (thorough) of plantings of 1-4 corpus documents in verified out-of-vocabulary context across thresholds 0.7-1.0, full/small corpora and user-added documents, plus an enumeration of every embedded document (x every menu threshold in thorough). Every embedded document is also planted twice, and user-added documents get token-identical twins in other categories (a copy is then a copy of both). Each planted copy must be reported with Confidence exactly 1.0, exact token span and lines. Bounded exploration. Context words include letters outside ASCII (multi-byte, case-length-changing, special-low-byte); synthetic corpus documents include schedules whose q-grams repeat hundreds of times.",
         "note": _V2NOTE + " Layouts where two copies share a physical line are excluded by construction (known finding F18).",
         "technique": "property-based testing (rapid) with constructive oracle + exhaustive enumeration over corpus documents",
     },
@@ -209,7 +209,7 @@ MANIFEST_TEXT = {
         "technique": "property-based testing (rapid) with a validity-predicate oracle",
     },
     "C04": {
-        "level": "Generated call histories (model-based: reference results from a pristine classifier), corpus permutations/supersets, caller-buffer snapshots, repeated/cross-process matching of tie-prone inputs, self-repeating documents and corpora whose documents contain each other, all with the oracle 'bit-identical ordered Results'. Found the tie-order defect F1 (fixed). Bounded exploration; separate processes vary Go's map seeds.",
+        "level": "Generated call histories (model-based: reference results from a pristine classifier), corpus permutations/supersets, caller-buffer snapshots, repeated/cross-process matching of tie-prone inputs, self-repeating documents and corpora whose documents contain each other, all with the oracle 'bit-identical ordered Results'. Found the tie-order defect F1 (fixed). Bounded exploration; separate processes vary Go's map seeds. Corpora with one text under several names (prefix-rule names, names differing in case only) are compared across insertion orders and repeated calls.",
         "note": _V2NOTE + " Cross-process comparison assumes the deterministic batch is identical in every process (it is a pure function of the tree).",
         "technique": "stateful property-based testing against a pristine reference + metamorphic corpus permutation + cross-process digest comparison",
     },
@@ -219,12 +219,12 @@ MANIFEST_TEXT = {
         "technique": "metamorphic property-based testing (rapid)",
     },
     "C06": {
-        "level": "Metamorphic property testing: notice/date insertion, list markers, hyphen splits, spelling pairs and http/https at drawn positions; token ids and reported licenses must be unchanged and inserted notices reported on their line; a quarter of the small-corpus cases run on a classifier that has normalized the texts before (call history). Two genuine deviations are recorded as known findings (F13, F14) and excluded by construction so the search continues behind them. Bounded exploration.",
+        "level": "Metamorphic property testing: notice/date insertion, list markers, hyphen splits, spelling pairs and http/https at drawn positions; token ids and reported licenses must be unchanged and inserted notices reported on their line; a quarter of the small-corpus cases run on a classifier that has normalized the texts before (call history). Two genuine deviations are recorded as known findings (F13, F14) and excluded by construction so the search continues behind them. Bounded exploration. Notice templates include non-ASCII lead-ins.",
         "note": _V2NOTE + " Position restrictions use independent predicates written in the harness, not the tokenizer under test.",
         "technique": "metamorphic property-based testing (rapid) with known-finding classes excluded by construction",
     },
     "C07": {
-        "level": "Metamorphic property testing: thousands of (X, prefix, suffix) triples; Match(P+X+S) must equal Match(X) shifted, for exact, noisy, truncated and multi-license X; a token-level difference of X in context is itself a violation. A second part sweeps the byte offset of every corpus document with non-ASCII letters over one read-buffer length. Found F22 (fixed). Bounded exploration.",
+        "level": "Metamorphic property testing: thousands of (X, prefix, suffix) triples; Match(P+X+S) must equal Match(X) shifted, for exact, noisy, truncated and multi-license X; a token-level difference of X in context is itself a violation. A second part sweeps the byte offset of every corpus document with non-ASCII letters over one read-buffer length. Found F22 (fixed). Bounded exploration. Blocks range up to 40000 distinct words.",
         "note": _V2NOTE,
         "technique": "metamorphic property-based testing (rapid)",
     },
@@ -234,7 +234,7 @@ MANIFEST_TEXT = {
         "technique": "differential property-based testing (rapid) + fault injection + exhaustive parameter sweeps",
     },
     "C10": {
-        "level": "Structure-aware generated-input search (rapid) in both tiers plus Go native coverage-guided fuzzing through four in-process targets in the thorough tier; the oracle (no panic, no hang, well-formed results) runs inside every target. Corpus documents are also cut from the input itself (k words around the q-gram size). Found the threshold-0 panic F3 (fixed). Bounded exploration; absence of crashes is never established.",
+        "level": "Structure-aware generated-input search (rapid) in both tiers plus Go native coverage-guided fuzzing through four in-process targets in the thorough tier; the oracle (no panic, no hang, well-formed results) runs inside every target. Corpus documents are also cut from the input itself (k words around the q-gram size). Found the threshold-0 panic F3 (fixed). Bounded exploration; absence of crashes is never established. Hostile atoms include list-marker words with letters that change byte length under lower-casing (raw and as HTML entities), BOM, U+2028/U+0085, zero-width and combining characters.",
         "note": "Public API only (external module with replace => /repo/v2). Panics are recovered and reported with the input; a hang is reported only when the in-flight case does not finish within 300 s alone. Native fuzzing cannot be pinned to a seed: its saved failing input is the reproducible unit.",
         "technique": "structure-aware property-based testing (rapid) + coverage-guided fuzzing (go test -fuzz)",
     },
@@ -244,17 +244,17 @@ MANIFEST_TEXT = {
         "technique": "round-trip property-based testing (rapid) + exhaustive enumeration over corpus and scenario files",
     },
     "C12": {
-        "level": "Differential testing against a reference construction: generated directory trees x 13 spellings of the directory argument, LoadLicenses vs AddContent per file (keys, token sequences, Match results; names incl. blanks, non-ASCII and invalid UTF-8), and DefaultClassifier vs LoadLicenses(assets) over every embedded document and scenario. Found the path-handling defects F4 (fixed). Bounded exploration.",
+        "level": "Differential testing against a reference construction: generated directory trees x 13 spellings of the directory argument, LoadLicenses vs AddContent per file (keys, token sequences, Match results; names incl. blanks, non-ASCII and invalid UTF-8), and DefaultClassifier vs LoadLicenses(assets) over every embedded document and scenario. Found the path-handling defects F4 (fixed). Bounded exploration. Files of 64 KiB and more are included.",
         "note": _V2NOTE + " Trees live under the driver's scratch directory; relative spellings change the process working directory (cases run sequentially).",
         "technique": "differential property-based testing (rapid) with generated file-system trees",
     },
     "C09": {
-        "level": "Generated concurrent batches (2-64 goroutines, barrier start, mixed Match/MatchFrom, edited inputs that drive the diff library's half-match path) executed under the Go race detector, plus comparison of every concurrent result with a sequential reference; two thirds of the batches run on fresh (cold) classifiers, half of those with wildcard trace configurations and a tracer that does not synchronise. A batch whose workers are all blocked on a mutex is reported as a deadlock. Found the shared-runes race F2 (fixed). The schedule is sampled, not owned; the race detector's happens-before analysis makes the verdict independent of the interleaving for the executed paths.",
+        "level": "Generated concurrent batches (2-64 goroutines, barrier start, mixed Match/MatchFrom, edited inputs that drive the diff library's half-match path) executed under the Go race detector, plus comparison of every concurrent result with a sequential reference; two thirds of the batches run on fresh (cold) classifiers, half of those with wildcard trace configurations and a tracer that does not synchronise. A batch whose workers are all blocked on a mutex is reported as a deadlock. Found the shared-runes race F2 (fixed). The schedule is sampled, not owned; the race detector's happens-before analysis makes the verdict independent of the interleaving for the executed paths. Half of the batches include an input of more than 65536 words.",
         "note": _V2NOTE + " Race reports need no confirmation (no false positives); the in-flight batch is saved as the replay.",
         "technique": "generated concurrent workloads under the race detector (invariant monitor) + differential comparison with a sequential reference",
     },
     "C13": {
-        "level": "Generated-input search with a constructive oracle: vocabularies with regular-expression metacharacters, Unicode and invalid UTF-8, known-value sets with unique tokens, normaliser lists and unknown strings built around planted copies; every verbatim copy (also when glued to word characters, adjacent to another copy, or the whole string) must be reported with exact Offset / Extent / Confidence 1.0, NearestMatch offsets lie inside the input, and AddValue must accept every string. Found F5 (regular-expression compilation), F17 (one-token values) and F21 (adjacent copies), all fixed. Bounded exploration.",
+        "level": "Generated-input search with a constructive oracle: vocabularies with regular-expression metacharacters, Unicode and invalid UTF-8, known-value sets with unique tokens, normaliser lists and unknown strings built around planted copies; every verbatim copy (also when glued to word characters, adjacent to another copy, or the whole string) must be reported with exact Offset / Extent / Confidence 1.0, NearestMatch offsets lie inside the input, and AddValue must accept every string. Found F5 (regular-expression compilation), F17 (one-token values) and F21 (adjacent copies), all fixed. Bounded exploration. Near-duplicate values range beyond 1000 and 10000 bytes.",
         "note": "In-package harness (package stringclassifier). Panics on goroutines spawned by the library kill the process; the case in flight is written first and adopted by the driver.",
         "technique": "property-based testing (rapid) with a constructive oracle",
     },
@@ -264,7 +264,7 @@ MANIFEST_TEXT = {
         "technique": "generated concurrent workloads under the race detector + differential comparison with a sequential reference",
     },
     "C15": {
-        "level": "Differential testing: for generated archives (real license files in drawn order plus synthetic ones served through the swapped ReadLicenseFile variable) the classifier loaded from ArchiveLicenses' output is compared with one built directly from the same normalised texts (once with fresh precomputed search sets, once through plain AddValue), on generated queries incl. typo-ridden and filler-stuffed texts (MultipleMatch in both header modes, NearestMatch with tie analysis), optionally after a decoy archive with the same file names was loaded; every large license file and synthetic licenses beyond every shipped size are archived as well. Bounded exploration.",
+        "level": "Differential testing: for generated archives (real license files in drawn order plus synthetic ones served through the swapped ReadLicenseFile variable) the classifier loaded from ArchiveLicenses' output is compared with one built directly from the same normalised texts (once with fresh precomputed search sets, once through plain AddValue), on generated queries incl. typo-ridden and filler-stuffed texts (MultipleMatch in both header modes, NearestMatch with tie analysis), optionally after a decoy archive with the same file names was loaded; every large license file and synthetic licenses beyond every shipped size are archived as well. Bounded exploration. A quarter of the archives are built from paths with a directory part.",
         "note": "External test package in the repository root with a guarded in-package export helper (injected, not committed); the root package's own TestMain (needs licenses.db, not shipped) is hidden from the build through the overlay.",
         "technique": "differential property-based testing (rapid) of a serialisation round trip",
     },
@@ -279,7 +279,7 @@ MANIFEST_TEXT = {
         "technique": "property-based testing (rapid) with validity-predicate oracles",
     },
     "C18": {
-        "level": "Reference-model testing, exhaustive in small scope: every string of up to 5 (quick) / 8 (thorough) atoms over delimiter-rich alphabets for 19 style configurations and every language at a smaller bound (also next to look-alike runes whose code point has a delimiter byte as low byte), plus generated long programs, compared with a reference lexer written from the exported language tables; ChunkIterator is checked for exactly-once, order and grouping. Found and repaired two lexer defects (F15, F16); after the repair the implementation and the reference agree on all enumerated strings.",
+        "level": "Reference-model testing, exhaustive in small scope: every string of up to 5 (quick) / 8 (thorough) atoms over delimiter-rich alphabets for 19 style configurations and every language at a smaller bound (also next to look-alike runes whose code point has a delimiter byte as low byte), plus generated long programs, compared with a reference lexer written from the exported language tables; ChunkIterator is checked for exactly-once, order and grouping. Found and repaired two lexer defects (F15, F16); after the repair the implementation and the reference agree on all enumerated strings. Generated programs also place lexemes at rune columns 256 / 65536 / 131072 and include runes whose low byte is a quote character.",
         "note": "In-package harness (package commentparser). The reference asserts nothing after an unterminated string / multi-line comment.",
         "technique": "exhaustive small-scope enumeration + property-based testing (rapid) against a reference model",
     },
